@@ -170,9 +170,53 @@ def run_case(acc, source, spec):
         acc.sample({"spec": spec, "splot": export("splot", spec)[:600]})
 
 
+def history_inplace(acc, spec, seed, j):
+    """Export, edit a constraint's expression tree in place (node attributes, no setter, same AST object), export
+    again with a fresh writer object: the second export must denote the edited model."""
+    import copy
+    from flamapy.metamodels.fm_metamodel.transformations import SPLOTWriter
+    from flamapy.metamodels.fm_metamodel.transformations.pl_writer import PLWriter
+    if not spec.get("ctcs"):
+        return
+    r = rand.rng(seed, "c10inplace", j)
+    names = S.feature_names(spec)
+    for which, W in (("exp", PLWriter), ("splot", SPLOTWriter)):
+        m = S.build(spec)
+        try:
+            W(None, m).transform()
+        except Exception:  # noqa: BLE001 - judged by run_case
+            continue
+        i = r.randrange(len(spec["ctcs"]))
+        t3 = S.inplace_edit_ast(m.ctcs[i].ast, spec["ctcs"][i]["ast"], r, names, ("AND", "OR", "IMPLIES"))
+        if t3 is None:
+            continue
+        es = copy.deepcopy(spec)
+        es["ctcs"][i]["ast"] = t3
+        cls = f"{which}:history:in-place-ast-node"
+        key = S.digest([which, "inplace", es])
+        acc.programs += 1
+        try:
+            text = W(None, m).transform()
+            sel, missing, extra = interpret(which, text, names)
+            fresh = interpret(which, export(which, es), names)[0]
+        except Exception as e:  # noqa: BLE001
+            if compare(which, es) is None:
+                acc.fail(cls, "no-exception", which, [], f"raises:{type(e).__name__}", str(e)[:200], {"which": which, "spec": es}, key)
+            continue
+        acc.disagreements_checked += 1
+        if sel != fresh:
+            acc.fail(cls, "same-configurations", which, [], "stale-after-in-place-edit",
+                     f"export after in-place edit of constraint {i} differs from a fresh export of the edited model "
+                     f"(|got|={len(sel)} |fresh|={len(fresh)})", {"which": which, "spec": es, "before": spec, "history": "in-place"}, key)
+        else:
+            acc.held(cls, key)
+
+
 def run_shard(desc, acc):
-    for source, spec in cases(desc):
+    for j, (source, spec) in enumerate(cases(desc)):
         run_case(acc, source, spec)
+        if source == "random" or j % 40 == 0:
+            history_inplace(acc, spec, desc["seed"], j)
         v = structural(spec)
         if v:
             acc.fail("splot:structure", v[0], "splot", [], v[1], v[2], {"which": "splot", "source": source, "spec": spec})
